@@ -24,6 +24,7 @@ import signal
 import threading
 import collections.abc as cabc
 import multiprocessing as mp
+import multiprocessing.connection # `mp.connection` below: the submodule is not loaded by `import multiprocessing` alone
 
 from . import remote_pickle
 from .utils import get_hostname, foreign_raise, is_windows, get_logger, classproperty, SupportClassPropertiesMeta, Pipe, gettid, setproctitle, setthreadtitle
